@@ -163,7 +163,11 @@ def run_interpreter():
 
 def readline_load_history():
     for line in load_history():
-        readline.add_history(line.strip())
+        try:
+            readline.add_history(line.strip())
+        except ValueError:
+            # E.g. an embedded null character, skip the line.
+            pass
 
 def load_history():
     path = ka.config.get(ConfigProperties.HISTORY_PATH)
